@@ -343,6 +343,14 @@ fn formats_variant<V: Variant>(ctx: &Ctx, rep: &mut Report) {
             document_check::<V>(0, doc.as_bytes(), rep);
             rep.count("documents:json:non_ascii_strings", 1);
         }
+        {
+            // accepted spellings wrapped in line terminators, blanks, quotes, a BOM ...: the string
+            // visitor must refuse them exactly as FromStr does
+            let s = super::c12::decorated_string::<V>(&mut rng);
+            let doc = serde_json::to_string(&s).unwrap_or_default();
+            document_check::<V>(0, doc.as_bytes(), rep);
+            rep.count("documents:json:decorated_strings", 1);
+        }
         for lit in ["null", "12", "[1,2]", "{}", "true", "\"\"", "\"T1\"", "1.5", "[\"T1\"]"] {
             if i == 0 {
                 document_check::<V>(0, lit.as_bytes(), rep);
